@@ -261,6 +261,16 @@ def impl_int(pname, x):
         return [f"I crash {type(e).__name__}"]
 
 
+def impl_rc_details(x):
+    """the free-text details of the bit rows of a response code: `D <row name> <details>` per row that has any"""
+    from tpmstream.spec.structures.constants import TPM_RC
+    try:
+        return sorted(f"D {a._name} {a._details.split(':')[0]}" for a in TPM_RC(x).attributes()
+                      if getattr(a, "_details", None) is not None)
+    except Exception as e:  # noqa
+        return [f"D crash {type(e).__name__}"]
+
+
 def impl_bits(pname, x):
     """canonical lines for BITS <prim> <x>: attributes(), accessors and the pretty printer's bit rows"""
     from tpmstream.common.event import MarshalEvent
